@@ -31,15 +31,40 @@ fn do_push() {
         IN_PUSH = false;
         PUSH_DONE += 1;
         LIVE += 1;
-        // the head report identifies the pushes that found the list empty (sequential reading:
-        // only checked when no other operation overlapped this push)
-        if np::PREEMPTS == PREEMPTS_AT_PUSH_START {
+        // the head report identifies the pushes that found the list empty.  "Found" is decided
+        // at the push's linearization point, the head.swap: the list is empty there iff every
+        // entry linked before has been consumed (recorded by the swap stub).  Checked unless a
+        // consumer operation ran between the swap and the return (it may already have consumed
+        // this very entry, which changes what `tail` the push reads back).
+        if SWAP_SEEN && np::PREEMPTS == PREEMPTS_AT_SWAP {
+            assert!(is_head == EMPTY_AT_SWAP, "C19: push's head report is wrong: it must be true exactly when the push found the list empty");
+        } else if np::PREEMPTS == PREEMPTS_AT_PUSH_START {
             assert!(is_head == empty_at_start, "C19: push reported is_head although the list was not empty (or vice versa)");
         }
+        SWAP_SEEN = false;
         HANDLE[v as usize] = Some(h);
     }
 }
 static mut PREEMPTS_AT_PUSH_START: usize = 0;
+static mut SWAP_SEEN: bool = false;
+static mut EMPTY_AT_SWAP: bool = false;
+static mut PREEMPTS_AT_SWAP: usize = 0;
+static mut SWAPPED: u8 = 0; // pushes that have passed their head.swap
+/// stub for AtomicPtr::swap (only `head.swap` in push uses it): schedule point, then record
+/// whether the list is empty at this linearization point, then the swap itself
+fn head_swap_stub<T>(a: &std::sync::atomic::AtomicPtr<T>, v: *mut T, _o: std::sync::atomic::Ordering) -> *mut T {
+    np::point();
+    unsafe {
+        EMPTY_AT_SWAP = consumed_count() == SWAPPED;
+        SWAPPED += 1;
+        SWAP_SEEN = true;
+        PREEMPTS_AT_SWAP = np::PREEMPTS;
+        let p = a.as_ptr();
+        let old = *p;
+        *p = v;
+        old
+    }
+}
 fn consumed_count() -> u8 {
     unsafe {
         let mut n = 0;
@@ -235,7 +260,7 @@ macro_rules! np_harness {
         $(#[$m])*
         #[kani::stub(core::sync::atomic::Atomic::<*mut T>::load, sa::ptr_load)]
         #[kani::stub(core::sync::atomic::Atomic::<*mut T>::store, sa::ptr_store)]
-        #[kani::stub(core::sync::atomic::Atomic::<*mut T>::swap, sa::ptr_swap)]
+        #[kani::stub(core::sync::atomic::Atomic::<*mut T>::swap, head_swap_stub)]
         #[kani::stub(crossbeam_utils::Backoff::snooze, snooze_prune)]
         fn $name() $body
     };
